@@ -9,7 +9,7 @@ from __future__ import annotations
 
 from typing import Any, Callable
 
-from exabgp.protocol.family import SAFI
+from exabgp.protocol.family import AFI, SAFI
 from exabgp.bgp.message.update.nlri.qualifier import RouteDistinguisher
 
 from exabgp.configuration.core import Section
@@ -100,6 +100,9 @@ class ParseFlowRoute(Section):
         pass
 
     def pre(self) -> bool:
+        # a new rule: its family is not known yet, and is certainly not the one the previous command left behind
+        # (after 'announce route 2001:db8::/32 ...' a rule with 'dscp' was refused as an IPv6 one)
+        self.parser.tokeniser.afi = AFI.undefined
         self.scope.append_route(flow())
         return True
 
